@@ -590,7 +590,8 @@ impl Stats {
         *self.counters.entry(k.to_string()).or_insert(0) += 1;
     }
     pub fn add(&mut self, k: &str, n: u64) {
-        *self.counters.entry(k.to_string()).or_insert(0) += n;
+        let c = self.counters.entry(k.to_string()).or_insert(0);
+        *c = c.saturating_add(n);
     }
 }
 
